@@ -47,7 +47,9 @@ func (m *RWMutex) id() string {
 	return fmt.Sprintf("rw%d", n)
 }
 
-func (m *RWMutex) Lock()    { gate.Yield("Lock", m.id()); m.mu.Lock() }
+// Lock is two yield points, as in the runtime: the writer first announces itself (from then on
+// new readers wait, which is what makes a re-entrant RLock deadlock-prone), then acquires.
+func (m *RWMutex) Lock()    { gate.Yield("LockReq", m.id()); gate.Yield("Lock", m.id()); m.mu.Lock() }
 func (m *RWMutex) Unlock()  { gate.Yield("Unlock", m.id()); m.mu.Unlock() }
 func (m *RWMutex) RLock()   { gate.Yield("RLock", m.id()); m.mu.RLock() }
 func (m *RWMutex) RUnlock() { gate.Yield("RUnlock", m.id()); m.mu.RUnlock() }
